@@ -1325,8 +1325,9 @@ class Reaction(Object):
         for metabolite, the_coefficient in list(self._metabolites.items()):
             if the_coefficient == 0:
                 # make the metabolite aware that it no longer participates
-                # in this reaction
-                metabolite._reaction.remove(self)
+                # in this reaction (it does not list a reaction that was removed
+                # from the model)
+                metabolite._reaction.discard(self)
                 self._metabolites.pop(metabolite)
 
         context = get_context(self)
